@@ -492,4 +492,126 @@ Proof.
     eexists. split; [reflexivity|]. cbn. fup. cbn. fup. split; reflexivity.
 Qed.
 
+
+Lemma all_prefixes_last (Q : fs -> Prop) l s : all_prefixes Q l s -> Q (exec l s).
+Proof. intros H. rewrite <- (firstn_all l). now apply all_prefixes_firstn. Qed.
+
+Lemma in_stale x d l : In x (filter (fun x => negb (x =? d)) l) -> In x l /\ x <> d.
+Proof.
+  intros Hin. apply filter_In in Hin. destruct Hin as [Hin Hne]. split; [exact Hin|].
+  apply negb_true_iff in Hne. now apply N.eqb_neq.
+Qed.
+
+(** cleanupNodeDataDir + createDB on the directory named by the pointer: volatile entries only *)
+Definition clean_inv (fr : N) (s : fs) (i d : N) (m : fs) : Prop :=
+  same_dur s m /\ v_cur (f_vol m) = Some i /\ In d (v_dbs (f_vol m)) /\
+  ino_ok m (f_vol m) /\ dbs_ok fr (f_vol m).
+
+Lemma clean_step fr s i d st m :
+  In st ([SRemoveF FUpd] ++ map SRemoveDb (filter (fun x => negb (x =? d)) (v_dbs (f_vol s))) ++ [SStOpen d]) ->
+  clean_inv fr s i d m -> clean_inv fr s i d (exec_step st m).
+Proof.
+  intros Hin (Hsd & Hc & Hd & Hi & Hdb).
+  cbn [app] in Hin. destruct Hin as [<-|Hin].
+  - (* remove current.updating *)
+    destruct m as [rT tN [vc vu vd] dur ino nxt sto]. cbn in *.
+    split; [exact Hsd|]. split; [exact Hc|]. split; [exact Hd|]. split; [|exact Hdb].
+    destruct Hi as [Hi1 _]. split; [exact Hi1|]. intros j Hj. discriminate Hj.
+  - apply in_app_or in Hin. destruct Hin as [Hin|[<-|[]]].
+    + apply in_map_iff in Hin. destruct Hin as (x & <- & Hx). apply in_stale in Hx. destruct Hx as [_ Hne].
+      destruct m as [rT tN [vc vu vd] dur ino nxt sto]. cbn in *.
+      split; [exact Hsd|]. split; [exact Hc|]. split; [|split; [exact Hi|]].
+      * apply filter_In. split; [exact Hd|]. apply negb_true_iff. apply N.eqb_neq. congruence.
+      * unfold dbs_ok in *. cbn in *. apply Forall_forall. intros z Hz. apply filter_In in Hz.
+        rewrite Forall_forall in Hdb. apply Hdb. apply Hz.
+    + cbn [exec_step]. repeat split; assumption.
+Qed.
+
+Lemma plan_good_open y : WF y -> plan_good y OOpen.
+Proof.
+  intros H. destruct (in_contract OOpen (s_proc y)) eqn:Hc; [|now apply plan_good_skip].
+  unfold in_contract in Hc. destruct (p_db (s_proc y)) as [d0|] eqn:Hd; [discriminate Hc|clear Hc].
+  destruct (node_dir_ok y H) as (Hpre & Hex & Hdn & HB).
+  pose proof (all_prefixes_last _ _ _ Hpre) as Hnorm. rewrite Hex in Hnorm.
+  unfold plan_good, plan, in_contract, up. rewrite Hd. cbn [fst snd spec_op].
+  unfold plan_open.
+  destruct (negb (exists_N (s_fs y)) || match v_cur (f_vol (s_fs y)) with None => true | Some _ => false end) eqn:Hnew.
+  - (* new run *)
+    assert (Hvc : v_cur (f_vol (s_fs y)) = None).
+    { destruct (exists_N (s_fs y)) eqn:HN.
+      - cbn in Hnew. destruct (v_cur (f_vol (s_fs y))); [discriminate Hnew|reflexivity].
+      - destruct (HB eq_refl) as [-> _]. reflexivity. }
+    assert (Hdc : v_cur (f_dur (s_fs y)) = None) by (rewrite <- (wC _ H); exact Hvc).
+    assert (Hk : dur_state ck (s_fs y) = kv_init) by (apply dur_state_nocur; exact Hdc).
+    rewrite Hk in *. cbn [fst snd].
+    destruct H as [a1 a2 a3 b c d e [f1a f1b] [f2a f2b] f3 f4 g].
+    destruct y as [[rT tN [vc vu vd] [dc du dd] ino nxt st] p fr]. cbn in *. subst vc dc.
+    destruct (first_run_ok vu du vd dd ino nxt st fr (fr + 1) kv_init f1b f2b f3 f4 ltac:(lia))
+      as (Hall & ino' & Hfin & Hdat & Hsyn).
+    unfold norm in *. cbn [f_vol f_dur f_ino f_next f_st] in *.
+    split.
+    + apply all_prefixes_app; [exact Hpre|]. rewrite Hex. exact Hall.
+    + eexists. split; [reflexivity|]. rewrite exec_app, Hex, Hfin.
+      split; [|split; [|reflexivity]].
+      * constructor; cbn.
+        -- reflexivity.
+        -- reflexivity.
+        -- reflexivity.
+        -- intros Hf. discriminate Hf.
+        -- reflexivity.
+        -- intros i Hi. injection Hi as <-. exists fr. repeat split; try assumption; now left.
+        -- intros d1. unfold fupd. destruct (d1 =? fr); [reflexivity|apply e].
+        -- ino_tac.
+        -- ino_tac.
+        -- constructor; [lia|]. apply Forall_lt_succ. exact f3.
+        -- constructor; [lia|]. apply Forall_lt_succ. exact f3.
+        -- intros d1 Hd1. injection Hd1 as <-. split; [reflexivity|]. exists nxt.
+           split; [reflexivity|]. split; [exact Hdat|]. now rewrite fupd_eq.
+      * rewrite (dur_state_cur _ nxt fr); [cbn; now rewrite fupd_eq|reflexivity|reflexivity|exact Hsyn].
+  - (* the pointer exists: clean up, open the store it names *)
+    apply orb_false_iff in Hnew. destruct Hnew as [HN Hvc]. apply negb_false_iff in HN.
+    destruct (v_cur (f_vol (s_fs y))) as [i|] eqn:Hi; [clear Hvc|discriminate Hvc].
+    destruct (wD _ H i Hi) as (d & Hdat & Hsyn & Hin1 & Hin2).
+    assert (Hrd : read_ptr ck (s_fs y) = RdOk d).
+    { unfold read_ptr, fs_read. cbn [v_file]. rewrite Hi, Hdat. apply decode_ptr_bytes. }
+    rewrite Hrd, (memN_In _ _ Hin1). cbn [fst snd].
+    assert (Hns : norm (s_fs y) = s_fs y).
+    { pose proof (wA1 _ H) as a1. pose proof (wA2 _ H) as a2. unfold exists_N in HN.
+      destruct (s_fs y) as [[a b] [c e] vol dur ino nxt st]. cbn in *. subst b e.
+      apply andb_prop in HN. destruct HN as [-> ->]. reflexivity. }
+    rewrite Hns in *.
+    set (rest := [SRemoveF FUpd] ++ map SRemoveDb (filter (fun x => negb (x =? d)) (v_dbs (f_vol (s_fs y)))) ++ [SStOpen d]).
+    assert (Hci : clean_inv (s_fresh y + 1) (s_fs y) i d (s_fs y)).
+    { split; [apply same_dur_refl|]. split; [exact Hi|]. split; [exact Hin1|].
+      split; [apply (wF1 _ H)|]. apply Forall_lt_succ. apply (wF3 _ H). }
+    destruct (all_prefixes_preserved (clean_inv (s_fresh y + 1) (s_fs y) i d) rest
+                (fun st m Hin Hm => clean_step _ _ _ _ st m Hin Hm) _ Hci) as [Hall Hend].
+    replace (plan_node_dir (s_fs y) ++ [SRemoveF FUpd] ++
+             map SRemoveDb (filter (fun x => negb (x =? d)) (v_dbs (f_vol (s_fs y))))) ++ [SStOpen d])
+      with (plan_node_dir (s_fs y) ++ rest) by (unfold rest; now rewrite <- !app_assoc).
+    split.
+    + apply all_prefixes_app; [exact Hpre|]. rewrite Hex.
+      eapply all_prefixes_impl; [|exact Hall]. intros m Hm. eapply same_dur_mid; [apply Hm|exact Hnorm].
+    + eexists. split; [reflexivity|]. rewrite exec_app, Hex.
+      destruct Hend as (Hsd & Hc' & Hd' & Hi' & Hdb').
+      rewrite (same_dur_state _ _ Hsd).
+      split; [|split; reflexivity].
+      destruct Hsd as (s1 & s2 & s3 & s4 & s5 & s6).
+      destruct H as [a1 a2 a3 b c d1 e f1 f2 f3 f4 g].
+      constructor; cbn [s_fs s_proc s_fresh p_db p_last].
+      * now rewrite s1.
+      * now rewrite s2.
+      * now rewrite s1, s2.
+      * unfold exists_N in *. rewrite s1, s2. intros Hf. rewrite Hf in HN. discriminate HN.
+      * rewrite Hc', s3, <- c. exact Hi.
+      * intros i' Hi'. rewrite Hc' in Hi'. injection Hi' as <-. exists d. rewrite s4, s3. repeat split; assumption.
+      * intros d2. rewrite s6. apply e.
+      * exact Hi'.
+      * unfold ino_ok in *. rewrite s3, s5. exact f2.
+      * exact Hdb'.
+      * rewrite s3. apply Forall_lt_succ. exact f4.
+      * intros d2 Hd2. injection Hd2 as <-. split; [unfold exists_N in *; now rewrite s1, s2|].
+        exists i. rewrite s4, s6. repeat split; assumption.
+Qed.
+
 End Proofs.
